@@ -10,6 +10,20 @@
 
 using namespace kit;
 
+// The platform clock is a seam of its own: the timer code under test takes "now" as an argument and has no business reading a
+// clock, but igris/time/systime.h is included by timer_manager.h, so a change can start to. The simulator owns that clock too: it is
+// another time base than the one the application passes to exec() (milliseconds since the epoch, as on the posix port), it
+// only advances with the simulated ticks, and every read is counted.
+static int64_t g_platform_clock_ticks = 0;
+static uint64_t g_platform_clock_reads = 0;
+namespace igris
+{
+    int64_t millis() { g_platform_clock_reads++; return 1700000000000ll + g_platform_clock_ticks; }
+    int64_t micros() { return millis() * 1000; }
+    int64_t nanos() { return millis() * 1000000; }
+}
+extern "C" uint64_t systime_millis() { return (uint64_t)igris::millis(); }
+
 namespace
 {
     // ---------------------------------------------------------------- timer_manager world
@@ -472,6 +486,7 @@ namespace
                     int64_t dt = mod(arg(o, 1), 2001);
                     now += (TT)dt * S;
                     ticks += dt;
+                    g_platform_clock_ticks += dt;
                     if (dt >= 30) fault("stall");
                     t.ev("exec now=%.17g", (double)now);
                     fires_this_exec = 0;
@@ -586,7 +601,8 @@ namespace
         {
             Plan p;
             int nt = (int)r.range(1, 4);
-            p.cfg = {nt, r.pick<int64_t>({500, 0, -25, -2000, 3})};
+            // (the last two: a millisecond counter after 35 days, milliseconds since the epoch - starts that need more than 32 bits)
+            p.cfg = {nt, r.pick<int64_t>({500, 0, -25, -2000, 3, 500, 3000000000ll, 1700000000000ll})};
             int nops = (int)r.range(5, tier == THOROUGH ? 150 : 60);
             if (r.chance(1, 40)) nops *= 8; // a long history: what only accumulates over hundreds or thousands of operations
             for (int i = 0; i < nops; i++)
@@ -611,7 +627,8 @@ namespace
             int n = (int)mod(p.c(0) - 1, 4) + 1;
             std::vector<stimer_head> st(n);
             std::vector<Model> m(n);
-            long origin = (long)(p.c(1, 500) % 100000);
+            long origin = p.c(1, 500) >= 1000000000 ? (long)std::min<int64_t>(p.c(1), 4000000000000ll) : (long)(p.c(1, 500) % 100000);
+            if (origin >= 1000000000) probe("stimer_time_beyond_32_bits");
             long now = origin;
             if (origin <= 0) probe("time_origin_not_positive");
             for (int i = 0; i < n; i++) stimer_init(&st[i], now, 1);
